@@ -186,6 +186,10 @@ def match_known(v, known):
 # --------------------------------------------------------------------------
 # main driver
 # --------------------------------------------------------------------------
+DEFAULT_PRELOAD = ['frame.geometry.geometry', 'frame.netlist.netlist', 'frame.die.die', 'frame.allocation.allocation',
+                   'ruamel.yaml', 'mc.common']
+
+
 def scratch_root():
     for base in ('/dev/shm', '/var/tmp'):
         if os.path.isdir(base) and os.access(base, os.W_OK):
@@ -218,7 +222,15 @@ def run_check(prop_name: str, tier: str, repo: str, jobs: int, seed: int, verbos
     try:
         ctx = mp.get_context('fork')
         nproc = max(1, min(jobs, nshards))
-        with ctx.Pool(nproc, initializer=_worker_init,
+        # Every shard runs in a freshly forked child of this (pristine) process: no state leaks from one shard
+        # to the next, so whatever a shard observes is reproducible by replaying that shard alone.  Heavy
+        # imports are done once here, before forking (importing executes no FRAME operation).
+        for name in getattr(mod, 'PRELOAD', DEFAULT_PRELOAD):
+            try:
+                importlib.import_module(name)
+            except Exception:  # noqa
+                pass
+        with ctx.Pool(nproc, initializer=_worker_init, maxtasksperchild=1,
                       initargs=(prop_name, repo, tier, root, not verbose)) as pool:
             it = pool.imap_unordered(_worker_run, [(i, shards[i]) for i in order], chunksize=1)
             for out in it:
